@@ -26,6 +26,7 @@ SmallDist == {[syms |-> <<>>, shape |-> "none"], [syms |-> <<0>>, shape |-> "sin
 StaleLit == {[syms |-> <<65, 66, 256, 257>>, shape |-> "balanced"],
              [syms |-> <<256, 65, 66, 67, 257, 258, 264, 285>>, shape |-> "chain"]}
 StaleDist == {[syms |-> <<>>, shape |-> "none"], [syms |-> <<0>>, shape |-> "single"], [syms |-> <<0, 3>>, shape |-> "balanced"]}
+WideDistPlus == WideDist \cup {[syms |-> <<>>, shape |-> "none"]}
 SmallLen == {<<257, 0>>, <<285, 0>>}
 SmallDistC == {<<0, 0>>, <<2, 0>>}
 
